@@ -149,16 +149,15 @@ Qed.
 
 (* main lemma: a covered class that passes the check, at any operand tuple where the emitted bytes decode
    (reference decoder) to what ppci prints *)
-Theorem rv_rw_sound n d c e :
-  nth_error table_riscv n = Some d -> nth_error rw_riscv n = Some c -> ~ In n rw_bad_riscv ->
+Lemma class_ok_sound d c e :
+  class_ok d c = true ->
   rv_expectation d = Some e -> assoc_fmt rv_formats (fst e) <> None ->
   forall ops bytes,
   RV32Decode.decode bytes = Some (fst e, map (apply_vsel ops) (snd e)) ->
   exists i, decode_instr bytes = Some i /\
             frame_ok i (defined_registers c ops) /\ reads_ok i (used_registers c ops).
 Proof.
-  intros Hd Hc Hb He Hf ops bytes Hdec.
-  pose proof (check2_spec _ _ _ 0%nat n d c rw_table_checked Hd Hc Hb) as H.
+  intros H He Hf ops bytes Hdec.
   unfold class_ok in H. apply andb_prop in H. destruct H as [_ H].
   unfold covered_fmt in H. rewrite He in H.
   destruct (assoc_fmt rv_formats (fst e)) as [f|] eqn:Ef; [|congruence].
@@ -170,6 +169,43 @@ Proof.
     apply sets_imply; intros r Hr.
     + rewrite HW in Hr. now apply SW.
     + rewrite HR in Hr. now apply SR.
+Qed.
+
+Theorem rv_rw_sound n d c e :
+  nth_error table_riscv n = Some d -> nth_error rw_riscv n = Some c -> ~ In n rw_bad_riscv ->
+  rv_expectation d = Some e -> assoc_fmt rv_formats (fst e) <> None ->
+  forall ops bytes,
+  RV32Decode.decode bytes = Some (fst e, map (apply_vsel ops) (snd e)) ->
+  exists i, decode_instr bytes = Some i /\
+            frame_ok i (defined_registers c ops) /\ reads_ok i (used_registers c ops).
+Proof.
+  intros Hd Hc Hb. apply class_ok_sound.
+  exact (check2_spec _ _ _ 0%nat n d c rw_table_checked Hd Hc Hb).
+Qed.
+
+(* the traced classes C08 lists as not well-formed (an operand is not recoverable from the bytes, e.g.
+   Loadlrel "lw rd, %pcrel_lo(label)(rd)" whose syntax names rd twice): same check, same theorem *)
+Lemma rw_nonwf_checked : check2 0 rw_nonwf_bad_riscv nonwf_riscv rw_nonwf_riscv = true.
+Proof. vm_compute. reflexivity. Qed.
+
+Theorem rv_rw_sound_nonwf n d c e :
+  nth_error nonwf_riscv n = Some d -> nth_error rw_nonwf_riscv n = Some c -> ~ In n rw_nonwf_bad_riscv ->
+  rv_expectation d = Some e -> assoc_fmt rv_formats (fst e) <> None ->
+  forall ops bytes,
+  RV32Decode.decode bytes = Some (fst e, map (apply_vsel ops) (snd e)) ->
+  exists i, decode_instr bytes = Some i /\
+            frame_ok i (defined_registers c ops) /\ reads_ok i (used_registers c ops).
+Proof.
+  intros Hd Hc Hb. apply class_ok_sound.
+  exact (check2_spec _ _ _ 0%nat n d c rw_nonwf_checked Hd Hc Hb).
+Qed.
+
+Theorem rw_nonwf_refuted : forall n, In n rw_nonwf_bad_riscv ->
+  class_ok (desc_at nonwf_riscv n) (nth n rw_nonwf_riscv (EmptyString, [])) = false.
+Proof.
+  assert (H : forallb (fun n => negb (class_ok (desc_at nonwf_riscv n) (nth n rw_nonwf_riscv (EmptyString, []))))
+                      rw_nonwf_bad_riscv = true) by (vm_compute; reflexivity).
+  intros n Hn. rewrite forallb_forall in H. specialize (H n Hn). now destruct (class_ok _ _).
 Qed.
 
 (* composed with C08's bounded reference agreement: no decode hypothesis on rv_domain *)
